@@ -8,7 +8,8 @@ import numpy as real_np
 
 from symx import patch, npshim
 from symx.core import And, Or, Not, Implies, Sum, select, eq, ite
-from .common import Scenario, elems, shape, mk_array, run_property
+from symx import h5shim
+from .common import Scenario, elems, shape, mk_array, run_property, assume_not_ndv
 
 
 def _build_group(sizes, version=None, with_values=True):
@@ -190,6 +191,155 @@ class RemoveData(Scenario):
             return "ok"
 
 
+class StoredStep(Scenario):
+    """the same steps on a *stored* drillhole group (seam B), optionally after a re-open (lazily loaded holes), followed by
+    a fresh reader: every remaining hole reads back the values last written, no stale rows are left in the file"""
+    pid = "C04"
+    include_io = True
+
+    def run(self, cx):
+        if self.backend == "real":
+            return super().run(cx)
+        with h5shim.h5_on():
+            return super().run(cx)
+
+    def body(self, cx):
+        from geoh5py.workspace import Workspace
+        from geoh5py.shared.utils import as_str_if_uuid
+        sizes, target, op = self.params["sizes"], self.params["target"], self.params["op"]
+        h5shim.reset()
+        patch.STUBS_USED.add("h5py -> symx.h5shim proxy over the real in-memory HDF5 file (seam B, A-H5)")
+        ws, g, holes, depth_d, val_d = _build_group(sizes, self.params.get("version"))
+        if self.params.get("reopen_first"):
+            ws.close()
+            ws = Workspace(ws.h5file)
+            g = [x for x in ws.groups if x.name == "DH"][0]
+            holes = sorted(g.children, key=lambda h: h.name)
+            val_d = [h.get_data("lbl")[0] for h in holes]
+        total = sum(sizes)
+        with self.engine(cx) as X:
+            starts, szs, vals = _install_state(cx, X, g, "lbl", None, total, "")
+            assume_not_ndv(cx, vals)
+            newv = None
+            if op == "update":
+                newv = [cx.real(f"n{p}") for p in range(szs[target])]
+                assume_not_ndv(cx, newv)
+                val_d[target].values = mk_array(X, newv, (szs[target],), "float64")
+            elif op == "remove_data":
+                ws.remove_entity(val_d[target])
+            else:
+                ws.remove_entity(holes[target])
+            expect = {}
+            for k, h in enumerate(holes):
+                if k == target and op != "update":
+                    continue
+                expect[h.uid] = newv if (k == target and op == "update") else _old_values(starts, szs, vals, k)
+            gone = as_str_if_uuid(holes[target].uid).encode() if op == "remove_hole" else None
+            ws.close()
+            ws2 = Workspace(ws.h5file)
+            g2 = [x for x in ws2.groups if x.name == "DH"]
+            cx.prove(len(g2) == 1, "the group is found again in the file", "re-open")
+            if len(g2) != 1:
+                return "lost"
+            g2 = g2[0]
+            names = sorted(h.name for h in g2.children)
+            cx.prove(names == sorted(h.name for k, h in enumerate(holes) if not (op == "remove_hole" and k == target)),
+                     "the file lists exactly the remaining holes", "re-open")
+            for h2 in g2.children:
+                if h2.uid not in expect:
+                    continue
+                dd = h2.get_data("lbl")
+                cx.prove(len(dd) == 1, f"{h2.name}: its data set is found again", "re-open")
+                if len(dd) == 1:
+                    got = elems(dd[0].values) if dd[0].values is not None else []
+                    exp = expect[h2.uid]
+                    cx.prove(len(got) == len(exp) and And([eq(a, b) for a, b in zip(got, exp)]),
+                             f"{h2.name}: a fresh reader sees the values last written", "re-open")
+            if op == "remove_data":
+                t2 = [h for h in g2.children if h.uid == holes[target].uid]
+                cx.prove(len(t2) == 1 and not t2[0].get_data("lbl"), "the removed data set is gone from the file", "re-open")
+            for lb in g2.index:
+                rows = [tuple(r) for r in g2.index[lb].tolist()]
+                if gone is not None:
+                    cx.prove(all(r[2] != gone for r in rows), f"{lb}: no stale index row of the removed hole in the file", "tiling")
+                tot = shape(g2.data[lb])[0]
+                cx.prove(eq(tot, Sum([r[1] for r in rows])), f"{lb}: stored array length == sum of row sizes", "tiling")
+            ws2.close()
+            return "ok"
+
+
+class CopyGroupThenEdit(Scenario):
+    """copy the whole group into another workspace, update / remove data in the copy: the source holes keep their values,
+    the copy's holes read back the values last written (in memory and through fresh readers)"""
+    pid = "C04"
+    include_io = True
+
+    def run(self, cx):
+        if self.backend == "real":
+            return super().run(cx)
+        with h5shim.h5_on():
+            return super().run(cx)
+
+    def body(self, cx):
+        from geoh5py.workspace import Workspace
+        sizes, target, op = self.params["sizes"], self.params["target"], self.params["op"]
+        h5shim.reset()
+        ws, g, holes, depth_d, val_d = _build_group(sizes)
+        text_d = []
+        for k, h in enumerate(holes):       # a text log whose strings get longer from hole to hole
+            text_d.append(h.add_data({"txt": {"depth": real_np.arange(sizes[k]) + 1.0,
+                                              "values": real_np.array([f"h{k}" + "x" * (k + p) for p in range(sizes[k])]),
+                                              "type": "text"}}))
+        src_vals = {h.uid: [float(v) for v in d.values] for h, d in zip(holes, val_d)}
+        src_text = {h.uid: [str(v) for v in d.values] for h, d in zip(holes, text_d)}
+        other = Workspace()
+        g2 = g.copy(parent=other)
+        holes2 = sorted(g2.children, key=lambda h: h.name)
+        with self.engine(cx) as X:
+            tgt = holes2[target]
+            d2 = tgt.get_data("lbl")[0]
+            newv = None
+            if op == "update":
+                newv = [cx.real(f"n{p}") for p in range(sizes[target])]
+                assume_not_ndv(cx, newv)
+                d2.values = mk_array(X, newv, (sizes[target],), "float64")
+                t2 = tgt.get_data("txt")[0]
+                longer = [f"new-and-much-longer-{p}" for p in range(sizes[target])]
+                t2.values = mk_array(X, longer, (sizes[target],), "str")
+            else:
+                other.remove_entity(d2)
+            # the copy, in memory
+            for k, h2 in enumerate(holes2):
+                dd = h2.get_data("lbl")
+                if k == target and op != "update":
+                    cx.prove(g2.fetch_values(d2, "lbl") is None, "removed data set reads back nothing in the copy", "copy edit")
+                    continue
+                exp = newv if k == target else src_vals[holes[k].uid]
+                got = elems(g2.fetch_values(dd[0], "lbl"))
+                cx.prove(len(got) == len(exp) and And([eq(a, b) for a, b in zip(got, exp)]),
+                         f"copy: hole {k} reads back the values last written", "copy edit")
+                if k == target and op == "update":
+                    gt = [x.decode() if isinstance(x, bytes) else str(x) for x in elems(g2.fetch_values(h2.get_data("txt")[0], "txt"))]
+                    cx.prove(gt == longer, "copy: longer text values are kept whole", "copy edit")
+            # the source: untouched, also for a fresh reader
+            for k, (h, d) in enumerate(zip(holes, val_d)):
+                got = [float(v) for v in elems(g.fetch_values(d, "lbl"))]
+                cx.prove(got == src_vals[h.uid], f"source: hole {k} keeps its values after the copy was edited", "source untouched")
+            ws.close()
+            ws_again = Workspace(ws.h5file)
+            ga = [x for x in ws_again.groups if x.name == "DH"][0]
+            for h in ga.children:
+                if not h.get_data("lbl"):
+                    cx.prove(False, f"source file: {h.name} lost its data set", "source untouched")
+                    continue
+                got = [float(v) for v in elems(h.get_data("lbl")[0].values)]
+                cx.prove(got == src_vals[h.uid], f"source file: {h.name} keeps its values", "source untouched")
+                gtx = [str(v) for v in elems(h.get_data("txt")[0].values)] if sizes[int(h.name[1:])] else []
+                cx.prove(gtx == src_text[h.uid], f"source file: {h.name} keeps its text values", "source untouched")
+            ws_again.close()
+            return "ok"
+
+
 class GroupTable(Scenario):
     """the group-wide table view lists exactly the per-hole values, hole by hole, each hole once"""
     pid = "C04"
@@ -354,6 +504,11 @@ def scenarios(tier, seed):
         S.append(UpdateValues(sizes=[2, 1], target=0, newlen=3, label="lbl"))
         S.append(UpdateValues(sizes=[2, 1], target=0, newlen=1, label="lbl"))
         S += [RemoveHole(sizes=[2, 0, 1], target=0), RemoveHole(sizes=[1, 2], target=1, via_parent=True)]
+        S += [StoredStep(sizes=[2, 1, 1], target=0, op="update"), StoredStep(sizes=[1, 2], target=1, op="remove_data"),
+              StoredStep(sizes=[2, 0, 1], target=0, op="remove_hole"),
+              StoredStep(sizes=[1, 2, 1], target=1, op="remove_hole", reopen_first=True),
+              StoredStep(sizes=[2, 1], target=0, op="update", reopen_first=True)]
+        S += [CopyGroupThenEdit(sizes=[2, 2, 1], target=0, op="update"), CopyGroupThenEdit(sizes=[1, 2, 2], target=1, op="remove")]
         S += [GroupTable(sizes=[2, 0, 1], then_update=0), GroupTable(sizes=[1, 2], then_update=1), GroupTable(sizes=[1, 1, 2])]
     else:
         shapes = _shape_tuples(2, 3) + _shape_tuples(3, 2) + [t for t in _shape_tuples(3, 3) if 3 in t][:12] + \
@@ -369,6 +524,16 @@ def scenarios(tier, seed):
             for tgt in range(len(sz)):
                 S.append(RemoveHole(sizes=sz, target=tgt))
                 S.append(RemoveHole(sizes=sz, target=tgt, via_parent=True))
+        for sz in ([2, 1, 1], [1, 2], [2, 0, 1], [1, 1, 1, 1]):
+            for tgt in range(len(sz)):
+                for op in ("update", "remove_data", "remove_hole"):
+                    for rf in (False, True):
+                        for v in ((None,) if len(sz) != 2 else (2.0, 2.1)):
+                            S.append(StoredStep(sizes=sz, target=tgt, op=op, reopen_first=rf, version=v))
+        for sz in ([2, 2, 1], [1, 2, 2], [3, 1]):
+            for tgt in range(len(sz)):
+                for op in ("update", "remove"):
+                    S.append(CopyGroupThenEdit(sizes=sz, target=tgt, op=op))
         for sz in ([2, 0, 1], [1, 2], [1, 1, 2], [3, 1], [2, 2, 2], [1, 0, 0, 2]):
             S.append(GroupTable(sizes=sz))
             S.append(GroupTable(sizes=sz, then_update=0))
@@ -400,6 +565,6 @@ def main(tier, seed):
                          "setter on depth data (any length) / value data (same, shorter, longer length), "
                          "workspace.remove_entity(data), parent.remove_children([data])",
                 "thorough": "k in 2..4 holes, sizes<=3, new length in {0,1,2,4}, every target, both format versions"}[tier],
-        expected_outcomes={"UpdateValues": {"ok"}, "RemoveData": {"ok"}, "RemoveHole": {"ok"}, "GroupTable": {"ok"}},
+        expected_outcomes={"UpdateValues": {"ok"}, "RemoveData": {"ok"}, "RemoveHole": {"ok"}, "GroupTable": {"ok"}, "StoredStep": {"ok"}, "CopyGroupThenEdit": {"ok"}},
         budget_s=600 if tier == "quick" else 3000,
     )
